@@ -78,14 +78,53 @@ func c06Alphabet() []c06Msg {
 	pv.Unk = unknownSamples[2]
 	pv.F[0].L[0].Unk = unknownSamples[0]
 	out = append(out, c06Msg{"pointers+maps+holders", ps, pv})
+	lh := universe.LeafHolder()
+	hs := mk(fd(1, D, universe.StPtr(lh)), fd(2, D, universe.ListOf(universe.StPtr(lh))), fd(3, D, universe.ListOf(universe.StVal(lh))), fd(4, D, universe.MapOf(sc(ref.KI32), universe.StPtr(lh))))
+	hv := c11Value(hs, 2)
+	hv.F[0].Unk = unknownSamples[1]
+	hv.F[1].L[0].Unk = unknownSamples[2]
+	hv.F[1].L[1].Unk = unknownSamples[0]
+	hv.F[2].L[0].Unk = unknownSamples[0]
+	hv.F[3].M[0][1].Unk = unknownSamples[1]
+	out = append(out, c06Msg{"fixed-size-holder-structs", hs, hv})
 	nc := mk(fd(1, D, sc(ref.KString)), fd(2, D, sc(ref.KBinary)), fd(3, D, sc(ref.KString)), fd(4, O, ptrTo(sc(ref.KI32))))
 	nc.Fields[0].NoCopy, nc.Fields[1].NoCopy = true, true
 	out = append(out, c06Msg{"nocopy+plain", nc, &ref.Val{K: ref.KStruct, F: []*ref.Val{ref.Str(rep(9)), ref.Bin([]byte(rep(300))), ref.Str(rep(11)), ref.Int(ref.KI32, 5)}}})
+	// one decode that rolls the sub-allocator's block over many times with mixed alignments
+	many := mk(fd(1, D, universe.ListOf(sc(ref.KString))), fd(2, D, universe.ListOf(universe.ListOf(sc(ref.KI16)))), fd(3, D, universe.MapOf(sc(ref.KString), universe.ListOf(sc(ref.KI64)))))
+	mv := &ref.Val{K: ref.KStruct, F: []*ref.Val{{K: ref.KList}, {K: ref.KList}, {K: ref.KMap}}}
+	for i := 0; i < 700; i++ {
+		mv.F[0].L = append(mv.F[0].L, ref.Str(rep(1+i%9)))
+		l := &ref.Val{K: ref.KList}
+		for j := 0; j < 1+i%5; j++ {
+			l.L = append(l.L, ref.Int(ref.KI16, int64(i+j)))
+		}
+		mv.F[1].L = append(mv.F[1].L, l)
+		if i%7 == 0 {
+			mv.F[2].M = append(mv.F[2].M, [2]*ref.Val{ref.Str(rep(2+i%5) + fmt.Sprint(i)), ref.List(ref.KList, ref.Int(ref.KI64, int64(i)))})
+		}
+	}
+	out = append(out, c06Msg{"many-small-allocations", many, mv})
 	c06Cache = out
 	return out
 }
 
-var c06Actions = []string{"none", "overwrite-input", "reuse-buffer", "gc-twice"}
+var c06Actions = []string{"none", "overwrite-input", "reuse-buffer", "gc-twice", "drop-all-gc-and-churn", "reuse-destination-keeping-a-shallow-copy"}
+
+// churn: application buffers allocated after earlier decoded objects were dropped and collected;
+// a decoder writing into memory it no longer owns shows up as a change in one of them.
+var c06Churn [][]byte
+
+func c06ChurnIntact() bool {
+	for _, b := range c06Churn {
+		for _, x := range b {
+			if x != 0x3c {
+				return false
+			}
+		}
+	}
+	return true
+}
 
 func init() {
 	harness.Register(&harness.Check{
@@ -100,7 +139,7 @@ func init() {
 			}
 			ps := []*harness.Phase{{
 				Name: "decoder-histories", Gate: true, Env: []string{"GODEBUG=clobberfree=1"},
-				Rule: fmt.Sprintf("all sequences of 1..%d messages of the alphabet (the longest length over every third message) x an action from {none, overwrite input, reuse buffer, gc twice} between steps, two forced GCs at the end; distinct by (history)", n),
+				Rule: fmt.Sprintf("all sequences of 1..%d messages of the alphabet (the longest length over every third message) x an action from {none, overwrite input, reuse buffer, gc twice, drop everything + gc + application churn, decode into the previous destination keeping a shallow copy} between steps, two forced GCs at the end; distinct by (history)", n),
 				Body: func(c *explore.C) { c06Body(c, n) },
 			}}
 			return append(ps, e3Phases("C06")...)
@@ -140,6 +179,7 @@ func c06Body(c *explore.C, maxLen int) {
 	c.Gate()
 	harness.Cur.Crumb(c.Choices())
 	hooks.Reset()
+	c06Churn = nil
 	var live []*c06Live
 	shared := make([]byte, 0, 8192) // the reusable input buffer
 	var hist []string
@@ -154,6 +194,13 @@ func c06Body(c *explore.C, maxLen int) {
 			shared = in[:0:cap(in)]
 		}
 		dst := universe.New(m.s, nil)
+		if i > 0 && acts[i-1] == 5 && len(live) > 0 && live[len(live)-1].msg.s == m.s {
+			// decode into the previous destination object; the earlier value lives on in a shallow copy
+			prev := live[len(live)-1]
+			cp := reflect.New(prev.dst.Type().Elem())
+			cp.Elem().Set(prev.dst.Elem())
+			dst, prev.dst = prev.dst, cp
+		}
 		r := Dec(in, dst.Interface())
 		hist = append(hist, m.name+"+"+c06Actions[acts[i]])
 		cs := func(class string, d interface{}) *harness.Case {
@@ -169,7 +216,8 @@ func c06Body(c *explore.C, maxLen int) {
 		}
 		lv := &c06Live{msg: m, dst: dst, input: in, nocopy: hasNocopy}
 		lv.snap = universe.ReadStruct(m.s, dst.Elem()).Canon()
-		if exp := ref.Decode(m.s, enc, nil, ref.DecOpts{}); lv.snap != exp.V.Canon() {
+		reused := i > 0 && acts[i-1] == 5 && len(live) > 0 && live[len(live)-1].msg.s == m.s
+		if exp := ref.Decode(m.s, enc, nil, ref.DecOpts{}); lv.snap != exp.V.Canon() && !reused {
 			c.Fail(fmt.Sprintf("decode %d (%s) yields a wrong value", i+1, m.name), cs("value-mismatch", nil))
 			return
 		}
@@ -183,6 +231,23 @@ func c06Body(c *explore.C, maxLen int) {
 		case 3:
 			runtime.GC()
 			runtime.GC()
+		case 4:
+			// the application drops every decoded object, the collector runs, the application allocates buffers of its own
+			live = nil
+			runtime.GC()
+			runtime.GC()
+			c06Churn = nil
+			for k := 0; k < 96; k++ {
+				b := make([]byte, 2048>>(k%3))
+				for x := range b {
+					b[x] = 0x3c
+				}
+				c06Churn = append(c06Churn, b)
+			}
+		}
+		if !c06ChurnIntact() {
+			c.Fail(fmt.Sprintf("after step %d (%s): a buffer the application allocated after dropping all decoded objects was overwritten by a later decode", i+1, hist[i]), cs("wrote-into-foreign-memory", nil))
+			return
 		}
 		if msg, class := c06Check(live); msg != "" {
 			c.Fail(fmt.Sprintf("after step %d (%s): %s", i+1, hist[i], msg), cs(class, msg))
